@@ -381,7 +381,7 @@ from vf.world import abst
 from vf.world.proj import Project
 
 
-def _q1e(edit_a, edit_b, fail_a, use_touch, mtime_gap):
+def _q1e(edit_a, edit_b, fail_a, use_touch, mtime_gap, mid):
     """Spec hashing on.  run (A, B accepted); A's job succeeds or fails (B's is then cancelled); the specs of A
     and/or B are edited; then either `gwf run` + successful jobs or `gwf touch`.  Afterwards every target was
     submitted/touched with its current script, its outputs are newer than its inputs (symbolic gap >= 0), so
@@ -391,6 +391,9 @@ def _q1e(edit_a, edit_b, fail_a, use_touch, mtime_gap):
     edit_a, edit_b, fail_a, use_touch = [True if x else False for x in (edit_a, edit_b, fail_a, use_touch)]
     if fail_a and use_touch:
         return q.SKIP        # the backend still holds a failed job for A: the statement's precondition does not hold
+    if not q.in_range(mid, 4) or (fail_a and mid != 0):
+        return q.SKIP
+    mid = q.pick([0, 1, 2, 3], mid)
     with q.notrace():
         pr = Project("chain2", "slurm", hashing=True)
         pr.add_sources(5)
@@ -408,6 +411,19 @@ def _q1e(edit_a, edit_b, fail_a, use_touch, mtime_gap):
                 t = t + 10
                 w.vfs.add("/vfs/proj/" + pr.outputs[pr.idx(j["name"])][0], t, "made by first run")
                 abst.set_state(w, j["id"], "done")
+        if mid:
+            # an invocation restricted to one target in between: nothing is stale, so it submits nothing and the other target stays completed
+            n_mid = len(abst.jobs_by_cmd(w))
+            if mid == 1:
+                w.run(("A",))
+            elif mid == 2:
+                w.run(("B",), dry_run=True)
+            else:
+                w.status_table(targets=("A",))
+            table = w.status_table()
+            if table != {"A": "completed", "B": "completed"} or len(abst.jobs_by_cmd(w)) != n_mid:
+                return "after a full run with successful jobs and then %s, status shows %s (submissions since: %d)" % (
+                    ["", "run A", "run --dry-run B", "status A"][mid], table, len(abst.jobs_by_cmd(w)) - n_mid)
         if edit_a:
             pr.targets["A"].spec = "make A --with-new-flag"
         if edit_b:
@@ -439,14 +455,14 @@ def _q1e(edit_a, edit_b, fail_a, use_touch, mtime_gap):
         w.uninstall()
 
 
-def q1e(edit_a: bool, edit_b: bool, fail_a: bool, use_touch: bool, mtime_gap: int) -> str:
+def q1e(edit_a: bool, edit_b: bool, fail_a: bool, use_touch: bool, mtime_gap: int, mid: int) -> str:
     """
     post: _ == ""
     """
-    return q.run(_q1e, (edit_a, edit_b, fail_a, use_touch, mtime_gap))
+    return q.run(_q1e, (edit_a, edit_b, fail_a, use_touch, mtime_gap, mid))
 
 
 QUERIES.append(
     {"name": "Q1e", "fn": q1e, "shards": [{}], "timeout": {"quick": 600, "thorough": 900},
-     "bound": "chain of 2 on the Slurm simulator with spec hashing on: run; first job of A succeeds or fails; spec of A and/or B edited or not; then run + successful jobs (outputs dated with a symbolic gap >= 0) or touch; then status and run"})
+     "bound": "chain of 2 on the Slurm simulator with spec hashing on: run; first job of A succeeds or fails; optionally an invocation restricted to one target (run A / run --dry-run B / status A); spec of A and/or B edited or not; then run + successful jobs (outputs dated with a symbolic gap >= 0) or touch; then status and run"})
 META["real"] = META["real"] + ["gwf.plugins.run.run / touch.touch / status.status (bodies)", "gwf.core.FileSpecHashes.__init__/close (persistence)", "gwf.backends.slurm + TrackingBackend"]
